@@ -753,4 +753,46 @@ theorem iterChunked_prefix (buf : Nat) (max : Option Nat) (ls le trailer : Bytes
       · exact ⟨_, iterChunked_scan_err buf max r sk _
           (scanLine_long buf _ _ _ r hc.line hd2 (by omega))⟩
 
+/-- whatever the decoder returns keeps the accounting right (see `readParts_inv`) -/
+theorem iterChunked_inv (buf : Nat) (max : Option Nat) :
+    ∀ (n : Nat) (r : Rec) (sk sk' : Sink), r.st.data.length = n → SinkInv buf sk →
+      overMax max sk.size = false → (iterChunked buf max r sk).1 = .ok sk' →
+      SinkInv buf sk' ∧ overMax max sk'.size = false := by
+  intro n
+  induction n using Nat.strongRecOn with
+  | _ n ih =>
+    intro r sk sk' hn hinv hm he
+    rw [iterChunked_eq] at he
+    rcases hs : scanLine buf r 0 false false [] with ⟨res, r1⟩
+    rw [hs] at he
+    cases res with
+    | error e1 => cases he
+    | ok line =>
+      simp only at he
+      have hlt := scanLine_data_lt buf r 0 false false [] line (by rw [hs])
+      rw [hs] at hlt
+      simp only at hlt
+      cases hp : pyIntHex line with
+      | none => rw [hp] at he; cases he
+      | some k =>
+        rw [hp] at he
+        simp only at he
+        split at he
+        · simp only [Except.ok.injEq] at he
+          subst he; exact ⟨hinv, hm⟩
+        · rcases hrp : readParts true buf max k.toNat r1 sk with ⟨res2, r2⟩
+          rw [hrp] at he
+          have hle := readParts_data_le true buf max k.toNat r1 sk
+          rw [hrp] at hle
+          simp only at hle
+          cases res2 with
+          | error e2 => cases he
+          | ok sk2 =>
+            simp only at he
+            have hi2 := readParts_inv true buf max k.toNat r1 sk sk2 hinv hm (by rw [hrp])
+            split at he
+            · cases he
+            · have hle2 := readTail_data_le r2
+              exact ih _ (by omega) (readTail r2).2 sk2 sk' rfl hi2.1 hi2.2 he
+
 end Ombott.Chunked
